@@ -17,6 +17,7 @@ fn dispatch(op: &str, args: &[String]) -> String {
         "class1" => ops_chars::class1(args),
         "accept" => ops_xml::accept(args),
         "parse" => ops_xml::parse(args),
+        "pipeline" => ops_xml::pipeline(args),
         "roundtrip" => ops_xml::roundtrip(args),
         "print" => ops_xml::print(args),
         "chardata" => ops_dom::chardata(args),
